@@ -233,7 +233,7 @@ func TestC18(t *testing.T) {
 	}
 	// boundary lengths and random values, all flag octets
 	lens := []int{0, 1, 2, 3, 4, 5, 6, 7, 8, 9, 11, 12, 13, 16, 20, 23, 24, 25, 36, 254, 255, 256, 257, 1020, 4092, 4096}
-	nb := c.N(64, 1600)
+	nb := c.N(400, 6000)
 	for k := 0; k < nb; k++ {
 		batch("lengths", k, map[string]any{"batch": k}, func(b *B) {
 			r := c.Rand("c18len", k)
@@ -263,7 +263,7 @@ func TestC18(t *testing.T) {
 	}
 	// AS_PATH: grammar-generated segment lists and their mutations
 	asRule := ref.AttrTable[1]
-	na := c.N(64, 1600)
+	na := c.N(400, 6000)
 	for k := 0; k < na; k++ {
 		batch("aspath", k, map[string]any{"batch": k}, func(b *B) {
 			r := c.Rand("c18as", k)
